@@ -834,20 +834,45 @@ func delegateShape(a *E3, ct *Cont, fn *ssa.Function, callee string) (bool, stri
 		return false, "Clone has no single-value return"
 	}
 	v := ret.Results[0]
-	for {
-		switch x := v.(type) {
-		case *ssa.MakeInterface:
-			v = x.X
-			continue
-		case *ssa.ChangeInterface:
-			v = x.X
-			continue
-		case *ssa.TypeAssert:
-			v = x.X
-			continue
+	var strip func(v ssa.Value, depth int) ssa.Value
+	strip = func(v ssa.Value, depth int) ssa.Value {
+		for depth < 8 {
+			switch x := v.(type) {
+			case *ssa.MakeInterface:
+				v = x.X
+				continue
+			case *ssa.ChangeInterface:
+				v = x.X
+				continue
+			case *ssa.TypeAssert:
+				v = x.X
+				continue
+			case *ssa.Extract:
+				// v, ok := y.(T): the asserted value
+				if ta, isTA := x.Tuple.(*ssa.TypeAssert); isTA && x.Index == 0 {
+					v = ta.X
+					continue
+				}
+			case *ssa.Phi:
+				// a named result assigned in the arms of a type switch on one value: every arm hands on that value
+				var one ssa.Value
+				for _, e := range x.Edges {
+					s := strip(e, depth+1)
+					if one != nil && s != one {
+						return v
+					}
+					one = s
+				}
+				if one != nil {
+					v = one
+					continue
+				}
+			}
+			break
 		}
-		break
+		return v
 	}
+	v = strip(v, 0)
 	call, ok := v.(*ssa.Call)
 	if !ok {
 		return false, "Clone does not return the result of a call (origin " + a.get(ret.Results[0]).String() + ")"
